@@ -337,7 +337,16 @@ class FnTotality:
                     self.sites.append(s)
                 elif name.endswith("::unwrap") or name.endswith("::expect"):
                     self.unwrap_call(bi, t, disc_with_ordinal)
-                elif name.endswith("Vec::<T, A>::insert") or name.endswith("::split_at") or name.endswith("::split_at_mut") \
+                elif name.endswith("::split_at") or name.endswith("::split_at_mut"):
+                    s = Site(self.fn, bi, "range", disc_with_ordinal("split_at:%s" % self.name_of_place_root(args[0])), t[5], mac)
+                    L = self.slice_lenval(args[0], bi)
+                    mid = ev.op_ival(args[1])
+                    if mid is not None and mid[1] != INF:
+                        self.need_min(s, L, mid[1], "split_at")
+                    else:
+                        s.why = "split point unknown"
+                    self.sites.append(s)
+                elif name.endswith("Vec::<T, A>::insert") \
                         or name.endswith("::swap") or name.endswith("]>::chunks") or name.endswith("::step_by") \
                         or name.endswith("Vec::<T, A>::remove") or name.endswith("::copy_within") or name.endswith("Vec::<T, A>::drain"):
                     self.sites.append(Site(self.fn, bi, "stdpanic", disc_with_ordinal(name.split("::")[-1]), t[5], mac))
@@ -707,6 +716,7 @@ def run_totality(facts, run, prop):
     n_explicit = 0
     bulk_counts = {}
     bulk_sites = {}
+    moved = []
     for fid, path in sorted(paths.items(), key=lambda kv: kv[1][-1]):
         a = T.fa[fid]
         gname = gen_name(a.fn["name"])
@@ -726,6 +736,20 @@ def run_totality(facts, run, prop):
                         used.add(i)
                         break
                 if ent is None:
+                    # second level: the site moved into a helper of the same module (extract-function refactor):
+                    # same discriminator, and the entry's function pattern still matches a function of that module
+                    # from which this function is reachable
+                    mod = "::".join(norm_name(a.fn["name"]).split("::")[:2])
+                    base_disc = re.sub(r"#\d+$", "", s.disc)
+                    for i, e in enumerate(table):
+                        if e["kind"] != s.kind or not (re.fullmatch(e["disc"], s.disc) or re.fullmatch(e["disc"], base_disc)):
+                            continue
+                        if any(re.fullmatch(e["fn"], norm_name(x)) and norm_name(x).startswith(mod + "::") for x in path):
+                            ent = e
+                            used.add(i)
+                            moved.append("%s: `%s` now in %s" % (e["fn"][:50], s.disc, a.fn["name"]))
+                            break
+                if ent is None:
                     run.oblige(ok=False)
                     run.add(Finding("R19a", "%s|%s|%s" % (gname, s.kind, s.disc),
                                     "totality: unreviewed explicit panic site `%s` in %s (%s:%s), reachable from %s" % (
@@ -737,9 +761,27 @@ def run_totality(facts, run, prop):
                 key = "%s|%s" % (gname, s.kind)
                 bulk_counts[(fid, key)] = bulk_counts.get((fid, key), 0) + 1
                 bulk_sites.setdefault((fid, key), []).append(s)
+    # module-level totals: moving code between functions of one module must not alarm
+    def modkey(key):
+        fnname, kind = key.split("|")
+        return "::".join(fnname.split("::")[:2]) + "|" + kind
+    mod_allowed = {}
+    for k_, v_ in inv.items():
+        mod_allowed[modkey(k_)] = mod_allowed.get(modkey(k_), 0) + v_
+    mod_have = {}
+    per_key_max = {}
+    for (fid, key), cnt in bulk_counts.items():
+        per_key_max[key] = max(per_key_max.get(key, 0), cnt)
+    for key, cnt in per_key_max.items():
+        mod_have[modkey(key)] = mod_have.get(modkey(key), 0) + cnt
     for (fid, key), cnt in sorted(bulk_counts.items(), key=lambda kv: kv[0][1]):
         allowed = inv.get(key, 0)
         a = T.fa[fid]
+        if cnt > allowed and mod_have.get(modkey(key), 0) <= mod_allowed.get(modkey(key), 0):
+            # redistribution inside the module, total not increased
+            moved.append("%s: %d site(s) redistributed within %s" % (key, cnt, modkey(key)))
+            run.oblige(cnt)
+            continue
         if cnt > allowed:
             run.oblige(ok=False)
             ss = bulk_sites[(fid, key)]
@@ -771,7 +813,7 @@ def run_totality(facts, run, prop):
                 check_caller_established(T, facts, e, paths if prop != "ALL" else None, cfg, prop, run)
     run.stats = getattr(run, "stats", {})
     run.stats.update(entries=len(entries), fns_in_scope=len(paths), sites=n_sites, explicit_sites=n_explicit,
-                     table_entries_used=len(used))
+                     table_entries_used=len(used), moved=moved[:20])
     return T
 
 
